@@ -24,9 +24,14 @@ class UnitType:
             value = Decimal(value)
             factor1 = Decimal(factor1)
             factor2 = Decimal(factor2)
+        error = magnitude1.error
+        if error is not None and self.conversion[0]=='_convert_linear':
+            # a linear conversion scales the absolute error by the same factor as the value
+            scale = factor1 / factor2
+            error = error * (scale if isinstance(error, Decimal) else float(scale))
         return Magnitude(
             getattr(self, self.conversion[0])(value * factor1, *self.conversion[1:]) / factor2,
-            magnitude1.error
+            error
         )
         
     def add(self, unit1, unit2):
